@@ -99,6 +99,12 @@ impl VariableMap {
         variable_id
     }
 
+    /// Returns the number of allocated variables.
+    #[cfg(feature = "verif-hooks")]
+    pub(crate) fn verif_count(&self) -> usize {
+        self.next_id
+    }
+
     /// Returns the origin of a variable. The origin describes the semantics of
     /// a variable.
     pub fn origin(&self, variable_id: VariableId) -> VariableOrigin {
